@@ -120,8 +120,12 @@ impl Oracle for C15Oracle {
                                 rec.fail("length_not_exact", &detail());
                             } else if post.data != want {
                                 rec.fail("written_bytes_wrong", &detail());
-                            } else {
+                            } else if pre.data[..w] == pre.disc[..] {
+                                // (the write-back does not look at the discriminant; only an account that carries
+                                // its type's discriminant is promised to read back)
                                 self.stored = Some(v.clone());
+                            } else {
+                                self.stored = None;
                             }
                         } else if (ans == "err:InvalidRealloc" && new_len > self.orig_len + MAX_INCREASE) || (ans == "err:AccountBorrowFailed" && self.borrow != "none") {
                             // refused by the runtime (growth allowance / data borrowed elsewhere): nothing may have been written
@@ -493,7 +497,16 @@ pub fn run(args: &Args) {
                 14 => "refund".to_string(),
                 15 => "next".to_string(),
                 16 => "client".to_string(),
-                17 => match rng.below(4) {
+                17 => match rng.below(5) {
+                    4 => {
+                        // the data changes under the wrapper (as a CPI could do)
+                        let cur = d.it.core().map(|c| c.data().len()).unwrap_or(0);
+                        if cur == 0 {
+                            "bytes".to_string()
+                        } else {
+                            format!("poke {} {}", rng.below(cur as u64), hex(&[rng.next() as u8]))
+                        }
+                    }
                     0 => "close".to_string(),
                     1 => format!("chown {}", hex(if rng.chance(1, 2) { &pid } else { &other })),
                     2 => "reload".to_string(),
